@@ -75,6 +75,7 @@ type wop struct {
 	addr     net.Addr
 	conn     sonic.Conn
 	depthAt  int // ioc.Dispatched at issue time
+	dstFd    int // writeTo: the harness socket the datagram is addressed to
 }
 
 func (p *wop) inflight() bool { return p.calls == 0 && !p.dropped }
@@ -105,6 +106,8 @@ type wobj struct {
 	accepted   []sonic.Conn
 	path       string
 	peerUDP    *net.UDPAddr
+	peer2      int          // datagram objects: a second receiver on another port (write destinations vary)
+	peer2UDP   *net.UDPAddr
 	dgramsSent [][]byte // datagrams the peer sent, not yet read
 	twoInFlight bool
 	broken      bool // descriptor replaced underneath (C03): epoll_ctl fails for it
@@ -379,6 +382,7 @@ func (w *world) addObject(kind objKind) *wobj {
 		_, port, _ := sysx.LocalAddr4(p)
 		o.pc, o.peer, o.canRead, o.canWrite = pc, p, true, true
 		o.peerUDP = &net.UDPAddr{IP: net.IPv4(127, 0, 0, 1).To4(), Port: port}
+		w.secondReceiver(o)
 	}
 	if kind == kMcast {
 		mp, err := multicast.NewUDPPeer(w.ioc, "udp", "127.0.0.1:0")
@@ -393,6 +397,7 @@ func (w *world) addObject(kind objKind) *wobj {
 		_, port, _ := sysx.LocalAddr4(p)
 		o.mp, o.peer, o.canRead, o.canWrite = mp, p, true, true
 		o.peerUDP = &net.UDPAddr{IP: net.IPv4(127, 0, 0, 1).To4(), Port: port}
+		w.secondReceiver(o)
 		o.rawFd = mp.NextLayer().RawFd()
 	}
 	switch {
@@ -405,6 +410,18 @@ func (w *world) addObject(kind objKind) *wobj {
 	}
 	w.objs = append(w.objs, o)
 	return o
+}
+
+// secondReceiver gives a datagram object a second harness socket to write to.
+func (w *world) secondReceiver(o *wobj) {
+	p, err := syscall.Socket(syscall.AF_INET, syscall.SOCK_DGRAM|syscall.SOCK_NONBLOCK|syscall.SOCK_CLOEXEC, 0)
+	if err != nil {
+		w.rt.Fatalf("INFRA: socket: %v", err)
+	}
+	_ = syscall.Bind(p, &syscall.SockaddrInet4{Addr: [4]byte{127, 0, 0, 1}})
+	_, port, _ := sysx.LocalAddr4(p)
+	o.peer2, o.peer2UDP = p, &net.UDPAddr{IP: net.IPv4(127, 0, 0, 1).To4(), Port: port}
+	w.cleanup = append(w.cleanup, func() { _ = syscall.Close(p) })
 }
 
 // ---------------------------------------------------------------------------
@@ -529,11 +546,17 @@ func (w *world) startOp(o *wobj, kind string, size int, prog []whop, from string
 		for i := range p.buf {
 			p.buf[i] = byte(p.id + i)
 		}
+		// the destination varies from write to write (a deterministic function of the operation id)
+		dst := o.peerUDP
+		p.dstFd = o.peer
+		if o.peer2UDP != nil && (uint32(p.id)*2654435761>>9)&1 == 1 {
+			dst, p.dstFd = o.peer2UDP, o.peer2
+		}
 		if o.mp != nil {
-			o.mp.AsyncWrite(p.buf, o.peerUDP.AddrPort(), func(err error, n int) { w.complete(p, err, n) })
+			o.mp.AsyncWrite(p.buf, dst.AddrPort(), func(err error, n int) { w.complete(p, err, n) })
 			break
 		}
-		o.pc.AsyncWriteTo(p.buf, o.peerUDP, func(err error) { w.complete(p, err, len(p.buf)) })
+		o.pc.AsyncWriteTo(p.buf, dst, func(err error) { w.complete(p, err, len(p.buf)) })
 	}
 	if p.calls == 0 {
 		p.deferred = true
